@@ -41,6 +41,7 @@ const (
 	dBom
 	dLoc
 	dMult
+	dMdef
 )
 
 var preDims = []preDim{
@@ -71,6 +72,12 @@ var preDims = []preDim{
 	// C-quoted); lfsnon: the generated line followed by a second line `P lockable` (same pattern, no filter); nonlfs: `P lockable`
 	// first, then the generated line.  (Git decides attribute by attribute, the LAST line that mentions the attribute wins.)
 	{"mult", []string{"once", "adj2", "sep2", "three", "spell2", "lfsnon", "nonlfs"}},
+	// macro placement (only with attrs=macro): WHERE the `[attr]mylfs filter=lfs ...` definition sits that the generated line uses.
+	// top: first line of the top-level ./.gitattributes (Git honours it there, also for uses in sub/.gitattributes); nested: first line
+	// of sub/.gitattributes (Git does NOT read macro definitions from nested files: the using line then assigns only an attribute called
+	// mylfs, whether it is in the same nested file or in the root file); info: .git/info/attributes (Git honours it for every file).
+	// Together with loc (where the USE is: root / sub / root with the operations inside sub/) this gives every placement pair.
+	{"mdef", []string{"top", "nested", "info"}},
 }
 
 var preAttrs = map[string]string{
@@ -97,6 +104,8 @@ const (
 	preOther     = "*.bin"
 	preSubFile   = "# local rules\n*.txt text eol=lf\n*.png filter=lfs diff=lfs merge=lfs -text\n"
 	preRootFile  = "*.md text\n*.mov filter=lfs diff=lfs merge=lfs -text\n"
+	// sub/.gitattributes of a file whose macro definition is nested while the generated line is in the root file operated in the root
+	preNestedDefFile = preMacroLine + "\n*.txt text eol=lf\n"
 )
 
 var preProbes = append(append([]string{}, bProbes...),
@@ -107,6 +116,10 @@ func preVal(v []int, d int) string { return preDims[d].Vals[v[d]] }
 func preValid(v []int) bool {
 	// "no newline character in the whole file" is only possible for a one-line file
 	if preVal(v, dTerm) == "single" && (v[dCtx] != 0 || preVal(v, dAttrs) == "macro" || v[dMult] != 0) {
+		return false
+	}
+	// the placement of the macro definition is a property of files that use the macro
+	if v[dMdef] != 0 && preVal(v, dAttrs) != "macro" {
 		return false
 	}
 	// "twice, separated by another line" needs another line
@@ -259,8 +272,12 @@ func preBuild(v []int, withLine bool) (root string, hasRoot bool, sub string, ha
 		pl = []preL{p}
 	}
 	pl = preMultiply(v, pl)
-	if macro && loc != "sub" {
-		pl = append(o(preMacroLine), pl...) // Git reads macro definitions only from the top-level file
+	mdef := "top" // Git reads macro definitions only from the top-level file (and from .git/info/attributes)
+	if macro {
+		mdef = preVal(v, dMdef)
+	}
+	if macro && ((mdef == "top" && loc != "sub") || (mdef == "nested" && loc == "sub")) {
+		pl = append(o(preMacroLine), pl...) // the definition is in the generated file itself
 	}
 	var lines []string
 	for _, l := range pl {
@@ -289,16 +306,54 @@ func preBuild(v []int, withLine bool) (root string, hasRoot bool, sub string, ha
 	}
 	switch loc {
 	case "root":
+		if macro && mdef == "nested" {
+			return content, true, preNestedDefFile, true
+		}
 		return content, true, "", false
 	case "sub":
 		r := preRootFile
-		if macro {
+		if macro && mdef == "top" {
 			r = preMacroLine + "\n" + r
 		}
 		return r, true, content, true
 	default: // opsub
-		return content, true, preSubFile, true
+		s := preSubFile
+		if macro && mdef == "nested" {
+			s = preMacroLine + "\n" + s
+		}
+		return content, true, s, true
 	}
+}
+
+// preInfo is .git/info/attributes of a deviation vector (only a macro definition is ever put there).
+func preInfo(v []int) (string, bool) {
+	if preVal(v, dAttrs) == "macro" && preVal(v, dMdef) == "info" {
+		return preMacroLine + "\n", true
+	}
+	return "", false
+}
+
+// preMacroPlacements lists the complete macro-placement cross product attrs=macro x mdef x loc; the members with more than D
+// deviations (the definition nested or in .git/info/attributes while the use is in sub/ or the operations run in sub/) are start
+// files in addition to "every vector with at most D deviations".
+func preMacroPlacements(D int) [][]int {
+	var out [][]int
+	am := 0
+	for i, a := range preDims[dAttrs].Vals {
+		if a == "macro" {
+			am = i
+		}
+	}
+	for m := range preDims[dMdef].Vals {
+		for l := range preDims[dLoc].Vals {
+			v := make([]int, len(preDims))
+			v[dAttrs], v[dMdef], v[dLoc] = am, m, l
+			if preValid(v) && preDevs(v) > D {
+				out = append(out, v)
+			}
+		}
+	}
+	return out
 }
 
 // preVectors lists every valid vector with at most D deviations: fewer deviations first, then lexicographically.
@@ -371,7 +426,7 @@ func newPreSpace(h *harness, pc preConfig) *preSpace {
 	if pc.Reduced {
 		otherKinds = []int{kTrack, kUntrack}
 	}
-	for _, v := range preVectors(D) {
+	for _, v := range append(preVectors(D), preMacroPlacements(D)...) {
 		if pc.Reduced && v[dMult] != 0 && preDevs(v) > closureD {
 			// quick tier: a multiplicity deviation is combined only with a second deviation of the dimensions term, pat, ctx, bom, loc
 			skip := false
@@ -414,6 +469,7 @@ func newPreSpace(h *harness, pc preConfig) *preSpace {
 		}
 		in.Root, in.HasRoot, in.Sub, in.HasSub = preBuild(v, true)
 		in.NoLineRoot, _, in.NoLineSub, _ = preBuild(v, false)
+		in.Info, in.HasInfo = preInfo(v)
 		p.initIdx[preVecKey(v)] = len(c.inits)
 		c.inits = append(c.inits, in)
 	}
@@ -531,7 +587,11 @@ func (p *preSpace) bounds() map[string]interface{} {
 			byDev[strconv.Itoa(preDevs(in.Vec))]++
 		}
 	}
-	return map[string]interface{}{"max_deviations": p.D, "searched_to_closure_up_to_deviations": p.closureD, "sequence_length_for_files_with_more_deviations": p.depth,
+	var mp []string
+	for _, v := range preMacroPlacements(p.D) {
+		mp = append(mp, preVecName(v))
+	}
+	return map[string]interface{}{"macro_placement_files_beyond_max_deviations": mp, "max_deviations": p.D, "searched_to_closure_up_to_deviations": p.closureD, "sequence_length_for_files_with_more_deviations": p.depth,
 		"reduced_alphabet": map[bool]string{false: "no: all four operations on both patterns from every file", true: "yes (quick tier): the other pattern is only tracked/untracked; files with more than " + strconv.Itoa(p.closureD) + " deviations get operations on the other pattern only when all their deviations are file-level (term, ctx, bom, loc); a multiplicity deviation (mult) is combined only with a second deviation of the dimensions term, pat, ctx, bom, loc"}[p.cfg.Reduced], "dimensions": dims, "initial_files": total, "initial_files_by_number_of_deviations": byDev,
 		"configurations": per, "probe_paths": len(preProbes), "other_pattern": preOther}
 }
